@@ -53,6 +53,63 @@ CORPUS += [{"tree": {"._a001.mov": {"f": "0101"}, "a001.mov": {"f": "0202"}, "Re
 CORPUS += [{"tree": {"keep.bin": {"f": "0101"}, "cache.tmp": {"f": "0202"}, "Sub": {"d": {"x.bin": {"f": "03"}, "scratch": {"d": {"y.bin": {"f": "04"}}}}}},
             "steps": [{"op": "create", "fmts": ["md5", "c4"], "i": ["*.tmp", "Sub/scratch"]}, {"op": "verifydh"}, {"op": "verifydh", "co": True},
                       {"op": "set", "path": "cache.tmp", "data": "ff"}, {"op": "verifydh"}, {"op": "set", "path": "Sub/x.bin", "data": "aa"}, {"op": "verifydh"}]}]
-check, replay = make("C09", oracles.oracle_c09, scenario, 70, 2000, RULE,
+def linked_files(rep, tier, seed):
+    """an entry that is a symbolic link to a file is an entry like any other for the tool (its content is hashed under the
+    link's name): a change that touches only such an entry is found by verify -dh (implementation only; the model has no links)"""
+    import os
+    import shutil
+
+    from .. import core, impl
+
+    sc = core.Scratch("C09l")
+    try:
+        for fmts in (["md5"], ["c4", "xxh64"]):
+            base = sc.new("l")
+            root = os.path.join(base, "r")
+            os.makedirs(os.path.join(root, "Sub", "Deep"))
+            for rel, data in (("a.bin", b"aa"), ("Sub/b.bin", b"bb"), ("Sub/Deep/c.bin", b"cc")):
+                with open(os.path.join(root, rel), "wb") as fh:
+                    fh.write(data)
+            for k, where in enumerate(("", "Sub", "Sub/Deep")):
+                with open(os.path.join(base, "outside%d.bin" % k), "wb") as fh:
+                    fh.write(b"content behind link %d" % k)
+                os.symlink(os.path.join(base, "outside%d.bin" % k), os.path.join(root, where, "link%d.bin" % k))
+            argv = [root]
+            for f in fmts:
+                argv += ["-h", f]
+            oc, out = impl.run_cli("create", argv)
+            oc2, out2 = impl.run_cli("verify", [root, "-dh"])
+            rep.case(("links", tuple(fmts), "unchanged"), sample=None)
+            rep.count("c09.links.unchanged")
+            if list(oc) != ["exit", 0] or list(oc2) != ["exit", 0]:
+                rep.violate("dh-links-unchanged", {"scenario": "tree with links to files outside it, create then verify -dh", "fmts": fmts}, ["exit", 0], [list(oc), list(oc2)],
+                            "create / verify -dh on an unchanged tree that contains links to files do not exit 0: " + (out + out2)[-300:])
+                continue
+            sealed = os.path.join(base, "sealed")
+            shutil.copytree(root, sealed, symlinks=True)
+            for k, where in enumerate(("", "Sub", "Sub/Deep")):
+                link = os.path.join(root, where, "link%d.bin" % k)
+                for name, do in (("content", lambda: open(os.path.join(base, "outside%d.bin" % k), "ab").write(b"!")),
+                                 ("rename", lambda: os.rename(link, link + "x")),
+                                 ("remove", lambda: os.remove(link)),
+                                 ("add", lambda: os.symlink(os.path.join(base, "outside%d.bin" % k), os.path.join(root, where, "new_link.bin")))):
+                    do()
+                    oc, out = impl.run_cli("verify", [root, "-dh"])
+                    rep.case(("links", tuple(fmts), where, name), nontrivial=True, sample=None)
+                    rep.count("c09.links." + name)
+                    if list(oc) != ["exit", 12]:
+                        rep.violate("dh-missed-change-link", {"scenario": f"link to a file in folder '{where or '.'}'; mutation: {name}", "fmts": fmts}, ["exit", 12], list(oc),
+                                    f"verify -dh does not exit 12 after the only change touched an entry that is a link to a file ({name} in '{where or '.'}')")
+                    # back to the sealed state
+                    shutil.rmtree(root)
+                    shutil.copytree(sealed, root, symlinks=True)
+                    with open(os.path.join(base, "outside%d.bin" % k), "wb") as fh:
+                        fh.write(b"content behind link %d" % k)
+            shutil.rmtree(base, ignore_errors=True)
+    finally:
+        sc.cleanup()
+
+
+check, replay = make("C09", oracles.oracle_c09, scenario, 70, 2000, RULE, extra=linked_files,
                      corpus_defects=[defects.d02_c09_flat_root_change, defects.d03_c09_mixed_format_child, defects.d04_c09_no_dirhash_generation],
                      nontrivial=lambda scn, obs: any(s["op"] in ("set", "rename", "add", "delete") for s in scn["steps"]), corpus=CORPUS)
